@@ -19,11 +19,12 @@ RULE = ('A motionless sensor: true attitude q* (class-A mixture incl. level / in
         'filter honours it and through a first sample that is the image of the initial attitude where it does not (Madgwick-MARG, '
         'FKF). Gains are the defaults or drawn inside each filter\'s stable range. Oracle per (filter, architecture): horizon H_f '
         'from the filter\'s own rate bound, err(H) <= tau_f, max err over the last 10% <= tau_f, err(H) <= max(err(0), tau_f), '
+        'A second sub-check (fast) gives the filters with horizons of a few thousand samples (AQUA, ROLEQ, Complementary, Madgwick with gain >= 0.3 at 20 Hz) four times as many starts, up to 175 deg in both tiers, half of them beyond 90 deg and some about the vertical axis (pure heading error). '
         'error = geodesic angle to q* for MARG and angle between gravity images for IMU/acc-only variants (table HORIZON below, '
         'calibrated on the unchanged tree). Non-trivial: theta0 >= 30 deg; distinct = case hash.')
 ASSUMPTIONS = ['"within a bounded number of samples" is checked as a safety property at a per-filter horizon derived from its correction rate',
                'tau_f = 10 x the worst converged error observed over >= 5 seeds on the unchanged tree, clipped to [1e-4, 2e-2] rad (FKF: 0.15 rad, its gain decays like 1/t)']
-REQUIRED_LABELS = ['converge:theta0>=90', 'converge:arch=MARG', 'converge:arch=IMU', 'converge:gains=custom', 'converge:gains=default']
+REQUIRED_LABELS = ['fast:theta0>=90', 'fast:filter=AQUA-MARG', 'converge:theta0>=90', 'converge:arch=MARG', 'converge:arch=IMU', 'converge:gains=custom', 'converge:gains=default']
 
 G, B = 9.81, 50.0
 
@@ -85,6 +86,29 @@ def _case(tier):
             theta0 = min(theta0, 150.0)       # default gain 0.033 rad/s at 100 Hz: beyond 150 deg the escape time exceeds the 30 000-sample cap
         return {'spec': CONV_IDX[k], 'q': draw(gen.unit_quaternions(allow_denormal=False)),
                 'axis': draw(gen.axes()), 'theta0': theta0,
+                'dip': draw(gen.fl(-70.0, 70.0)), 'frame': draw(st.sampled_from(['NED', 'ENU'])),
+                'P': P, 'dt': dt, 'sigma_exp': draw(gen.fl(-6.0, -3.0)), 'seed': draw(st.integers(0, 2**31-1))}
+    return build()
+
+
+FAST_KEYS = ['AQUA-IMU', 'AQUA-MARG', 'ROLEQ-MARG', 'Complementary-IMU', 'Complementary-MARG', 'Madgwick-IMU', 'Madgwick-MARG']
+
+
+def _case_fast(tier):
+    """The filters whose horizon is a few thousand samples get many more starts, up to 175 deg in both tiers (the first sub-check
+    spends its budget on the slow ones: 12 000 - 30 000 samples per run)."""
+    @st.composite
+    def build(draw):
+        key = draw(st.sampled_from(FAST_KEYS))
+        k = CONV_KEYS.index(key)
+        if key.startswith('Madgwick'):
+            g = 'gain_imu' if key.endswith('IMU') else 'gain_marg'
+            P, dt = {draw(st.sampled_from(['gain', g])): draw(gen.fl(0.3, 1.0))}, 0.05
+        else:
+            P, dt = draw(_gains(key))
+        theta0 = draw(st.one_of(gen.fl(0.0, 175.0), gen.fl(90.0, 175.0), gen.fl(90.0, 175.0), st.sampled_from([175.0, 90.0, 120.0])))
+        return {'spec': CONV_IDX[k], 'q': draw(gen.unit_quaternions(allow_denormal=False)),
+                'axis': draw(st.one_of(gen.axes(), st.sampled_from([[0.0, 0.0, 1.0], [0.0, 0.0, -1.0]]))), 'theta0': theta0,
                 'dip': draw(gen.fl(-70.0, 70.0)), 'frame': draw(st.sampled_from(['NED', 'ENU'])),
                 'P': P, 'dt': dt, 'sigma_exp': draw(gen.fl(-6.0, -3.0)), 'seed': draw(st.integers(0, 2**31-1))}
     return build()
@@ -231,4 +255,5 @@ def selftest():
         raise HarnessError(f'filter table order changed: {keys}')
 
 
-SUBCHECKS = {'converge': Sub(_case, evaluate, quick=400, thorough=12000, budget_quick=100.0, budget_thorough=1500.0)}
+SUBCHECKS = {'converge': Sub(_case, evaluate, quick=400, thorough=12000, budget_quick=100.0, budget_thorough=1500.0),
+             'fast': Sub(_case_fast, evaluate, quick=1600, thorough=40000, budget_quick=60.0, budget_thorough=900.0)}
